@@ -194,6 +194,22 @@ def _divmod(I, args, kw):
     return (I.binop(ast.FloorDiv(), a, b), I.binop(ast.Mod(), a, b))
 
 
+@model('os.path.dirname')
+def _os_dirname(I, args, kw):
+    import os
+    if isinstance(args[0], str):
+        return os.path.dirname(args[0])
+    raise Unsupported('os.path.dirname of a non-concrete path')
+
+
+@model('os.path.join')
+def _os_join(I, args, kw):
+    import os
+    if all(isinstance(a, str) for a in args):
+        return os.path.join(*args)
+    raise Unsupported('os.path.join of non-concrete paths')
+
+
 @model('builtins.enumerate')
 def _enumerate(I, args, kw):
     r = hook('enumerate_', I, args[0])
@@ -284,6 +300,9 @@ def _str(I, args, kw):
     E = _E()
     if is_sym(x) or isinstance(x, (E.Obj, E.Opaque, E.ClassRef)):
         return E.Opaque('str()')
+    if isinstance(x, tuple) and any(is_sym(y) for y in x):
+        from .layout import TupleText
+        return TupleText(x)
     if isinstance(x, Fraction):
         return str(float(x))
     return str(x)
@@ -725,7 +744,7 @@ def delitem(I, obj, idx):
 def str_format(I, fmt, arg):
     E = _E()
     args = arg if isinstance(arg, tuple) else (arg,)
-    if not any(is_sym(a) or isinstance(a, (E.Obj, E.Opaque, E.FmtStr)) or hasattr(a, 'is_sarr') for a in args):
+    if not any(is_sym(a) or isinstance(a, (E.Obj, E.Opaque, E.FmtStr)) or hasattr(a, 'is_sarr') or type(a).__name__ == 'TupleText' for a in args):
         try:
             conv = tuple(float(a) if isinstance(a, Fraction) else a for a in args)
             return fmt % (conv if isinstance(arg, tuple) else conv[0])
